@@ -41,6 +41,9 @@ EXAMPLES = {
                           dict(L='L', mu='mu', gamma='gamma', n='n')),
     'douglas_rachford': ('composite_convex_minimization.douglas_rachford_splitting', 'wc_douglas_rachford_splitting',
                          dict(L='L', alpha='alpha', theta='theta', n='n')),
+    'douglas_rachford_contraction': ('composite_convex_minimization.douglas_rachford_splitting_contraction',
+                                     'wc_douglas_rachford_splitting_contraction',
+                                     dict(mu='mu', L='L', alpha='alpha', theta='theta', n='n')),
     'frank_wolfe': ('composite_convex_minimization.frank_wolfe', 'wc_frank_wolfe', dict(L='L', D='D', n='n')),
     'halpern': ('fixed_point_problems.halpern_iteration', 'wc_halpern_iteration', dict(n='n')),
     'proximal_point_operators': ('monotone_inclusions_variational_inequalities.proximal_point', 'wc_proximal_point',
@@ -312,7 +315,8 @@ def prog(env, case):
 
 DOCUMENTED = {'gradient_descent', 'gradient_descent_qg', 'heavy_ball', 'accelerated_gradient_convex', 'halpern',
               'krasnoselskii_mann', 'proximal_point', 'proximal_gradient', 'proximal_point_operators',
-              'gradient_descent_lyapunov', 'douglas_rachford', 'three_operator_splitting'}
+              'gradient_descent_lyapunov', 'douglas_rachford', 'three_operator_splitting',
+              'douglas_rachford_contraction'}
 
 
 def _prox_quad(fm, gamma, z):
@@ -396,6 +400,18 @@ def documented(name, vals, n, fam, x0, fams=(), xs=None, starts=()):
             y = _prox_quad(f1, vals['alpha'], 2 * x - w)
             w = w + vals['theta'] * (y - x)
         return (f1.value([y]) + f2.value([y])) - (f1.value([xs]) + f2.value([xs]))
+    if name == 'douglas_rachford_contraction':
+        # x_t = prox_{alpha f2}(w_t);  y_t = prox_{alpha f1}(2 x_t - w_t);  w_{t+1} = w_t + theta (y_t - x_t), run from two
+        # starting points;  |w_n - w'_n|^2   (f1 smooth strongly convex, f2 convex)
+        f1, f2 = fams[0], fams[1]
+        outs = []
+        for w in starts[:2]:
+            for t in range(n):
+                x = _prox_quad(f2, vals['alpha'], w)
+                y = _prox_quad(f1, vals['alpha'], 2 * x - w)
+                w = w + vals['theta'] * (y - x)
+            outs.append(w)
+        return (outs[0] - outs[1]) * (outs[0] - outs[1])
     if name == 'three_operator_splitting':
         # x_t = prox_{alpha f2}(w_t);  y_t = prox_{alpha f1}(2 x_t - w_t - alpha f3'(x_t));  w_{t+1} = w_t + theta (y_t - x_t)
         # run from two starting points;  |w_n - w'_n|^2
@@ -414,6 +430,7 @@ def documented(name, vals, n, fam, x0, fams=(), xs=None, starts=()):
 def cases(tier):
     cs = []
     quick = ['gradient_descent', 'heavy_ball', 'accelerated_gradient_convex', 'proximal_point', 'proximal_gradient',
+             'douglas_rachford_contraction',
              'douglas_rachford', 'frank_wolfe', 'halpern', 'proximal_point_operators', 'optimistic_gradient',
              'subgradient_method']
     names = quick if tier == 'quick' else list(EXAMPLES)
